@@ -116,7 +116,6 @@ Section Restart.
 
   (** observational equivalence of component states (what the queries can tell apart) *)
   Variable ceq : comp -> S -> S -> Prop.
-  Hypothesis ceq_refl : forall c s, ceq c s s.
   Hypothesis ceq_trans : forall c s1 s2 s3, ceq c s1 s2 -> ceq c s2 s3 -> ceq c s1 s3.
   Hypothesis apply_cong : forall c s1 s2 m, ceq c s1 s2 -> ceq c (capply c s1 m) (capply c s2 m).
 
@@ -136,15 +135,21 @@ Section Restart.
       (both are [True] for the abstract statement) *)
   Variable cinv : comp -> S -> Prop.
   Variable mok : comp -> M -> Prop.
+  (** [cok]: the state can be written to a snapshot (byte strings, u64 counters) — a side
+      condition on the state AT the compaction point, not an inductive invariant *)
+  Variable cok : comp -> S -> Prop.
+  Hypothesis ceq_refl : forall c s, cinv c s -> ceq c s s.
   Hypothesis inv_init : forall c, cinv c (cinit c).
   Hypothesis inv_apply : forall c s m, cinv c s -> mok c m -> cinv c (capply c s m).
-  Hypothesis snap_routed : forall c s r, cinv c s -> In r (csnap c s) -> routed_to c (rtree r) (rkey r).
-  Hypothesis roundtrip : forall c s, cinv c s -> ceq c (fold_left (cload_routed c) (csnap c s) (cinit c)) s.
+  Hypothesis snap_routed : forall c s r, cinv c s -> cok c s -> In r (csnap c s) -> routed_to c (rtree r) (rkey r).
+  Hypothesis roundtrip : forall c s, cinv c s -> cok c s ->
+                                     ceq c (fold_left (cload_routed c) (csnap c s) (cinit c)) s.
 
   Definition entry_ok (e : entry) : Prop :=
     match e with Some (c, m) => mok c m | None => True end.
 
   Definition node_inv (st : node) : Prop := forall c, cinv c (st c).
+  Definition node_ok (st : node) : Prop := forall c, cok c (st c).
 
   Lemma apply_entry_inv (st : node) e : node_inv st -> entry_ok e -> node_inv (apply_entry S M capply st e).
   Proof.
@@ -184,20 +189,20 @@ Section Restart.
   Qed.
 
   (** records of another component do not touch [c] *)
-  Lemma foreign_records c c' s : cinv c' s -> c' <> c -> forall x,
+  Lemma foreign_records c c' s : cinv c' s -> cok c' s -> c' <> c -> forall x,
     fold_left (cload_routed c) (csnap c' s) x = x.
   Proof.
-    intros I NE. generalize (fun r => snap_routed c' s r I). induction (csnap c' s) as [| r l IH]; intros H x; [reflexivity |].
+    intros I K NE. generalize (fun r => snap_routed c' s r I K). induction (csnap c' s) as [| r l IH]; intros H x; [reflexivity |].
     simpl. rewrite IH by (intros r' Hr'; apply H; now right).
     destruct (H r (or_introl eq_refl)) as [lm R]. unfold cload_routed. rewrite R.
     destruct (comp_eqb c' c) eqn:E; [apply comp_eqb_eq in E; contradiction | reflexivity].
   Qed.
 
-  Lemma load_blocks (st : node) c l : node_inv st -> NoDup l -> forall x,
+  Lemma load_blocks (st : node) c l : node_inv st -> node_ok st -> NoDup l -> forall x,
     fold_left (cload_routed c) (flat_map (fun c' => csnap c' (st c')) l) x
     = if existsb (comp_eqb c) l then fold_left (cload_routed c) (csnap c (st c)) x else x.
   Proof.
-    intros I. induction l as [| c' l IH]; intros ND x; [reflexivity |].
+    intros I K. induction l as [| c' l IH]; intros ND x; [reflexivity |].
     inversion ND as [| ? ? Hn ND']; subst. simpl. rewrite fold_left_app.
     destruct (comp_eqb c c') eqn:E.
     - apply comp_eqb_eq in E; subst c'. simpl. rewrite IH by assumption.
@@ -206,17 +211,18 @@ Section Restart.
     - simpl. rewrite foreign_records.
       + now apply IH.
       + apply I.
+      + apply K.
       + intros ->. now rewrite comp_eqb_refl in E.
   Qed.
 
   (** loading the snapshot of a node state gives back an equivalent node state *)
   Lemma load_build (st : node) c :
-    node_inv st -> ceq c (load_snapshot (build_snapshot st) init c) (st c).
+    node_inv st -> node_ok st -> ceq c (load_snapshot (build_snapshot st) init c) (st c).
   Proof.
-    intros I. rewrite load_snapshot_comp. unfold Snapshot.build_snapshot.
+    intros I K. rewrite load_snapshot_comp. unfold Snapshot.build_snapshot.
     rewrite load_blocks by (assumption || apply build_order_nodup).
     replace (existsb (comp_eqb c) build_order) with true by (destruct c; reflexivity).
-    apply roundtrip, I.
+    apply roundtrip; [apply I | apply K].
   Qed.
 
   Lemma apply_entry_cong (st1 st2 : node) e :
@@ -241,19 +247,23 @@ Section Restart.
       reproduces every component's state up to observational equivalence *)
   Theorem restart_state :
     forall (hist : list entry) (k : nat), k <= length hist -> Forall entry_ok hist ->
+    node_ok (run (firstn k hist) init) ->
     forall c, ceq c (start_up (Some (k, build_snapshot (run (firstn k hist) init))) hist (length hist) c)
                     (run hist init c).
   Proof.
-    intros hist k Hk OK c. unfold Replay.start_up.
+    intros hist k Hk OK NK c. unfold Replay.start_up.
     assert (IK : node_inv (run (firstn k hist) init)) by (apply run_inv; [apply init_inv | now apply Forall_firstn]).
     destruct (length hist =? 0) eqn:E0.
     - apply Nat.eqb_eq in E0. assert (k = 0) by lia. subst k.
-      destruct hist; [| discriminate]. simpl. apply load_build, init_inv.
+      destruct hist; [| discriminate]. simpl. apply load_build; [apply init_inv | exact NK].
     - assert (E : firstn (length hist - k) (skipn k hist) = skipn k hist).
       { apply firstn_all2. rewrite skipn_length. lia. }
       rewrite E. rewrite <- (firstn_skipn k hist) at 3. rewrite run_app.
       apply run_cong. intros d. now apply load_build.
   Qed.
+
+  Lemma run_refl hist : Forall entry_ok hist -> forall c, ceq c (run hist init c) (run hist init c).
+  Proof. intros OK c. apply ceq_refl. apply run_inv; [apply init_inv | assumption]. Qed.
 
   (** a node that never compacted replays its whole log *)
   Theorem restart_state_no_snapshot :
@@ -301,9 +311,10 @@ Section Restart.
   Theorem restart_racy_idempotent :
     forall (hist : list entry) (k : nat) (j : comp -> nat) (c : comp),
       Forall entry_ok hist -> replay_idempotent c ->
+      (forall d, cok d (run (firstn (k + j d) hist) init d)) ->
       ceq c (restart_racy S M capply csnap cload cinit hist k j c) (run hist init c).
   Proof.
-    intros hist k j c OK ID. unfold restart_racy, Replay.start_up.
+    intros hist k j c OK ID NK. unfold restart_racy, Replay.start_up.
     set (stj := fun c' : comp => run (firstn (k + j c') hist) init c').
     assert (IJ : node_inv stj).
     { intros d. unfold stj. apply run_inv; [apply init_inv | now apply Forall_firstn]. }
@@ -311,7 +322,7 @@ Section Restart.
     { intros d. change (build_snapshot_racy S M capply csnap cinit hist k j) with (build_snapshot stj). now apply load_build. }
     destruct (length hist =? 0) eqn:E0.
     - apply Nat.eqb_eq in E0. destruct hist; [| discriminate].
-      eapply ceq_trans; [apply LB |]. unfold stj. rewrite firstn_nil. apply ceq_refl.
+      eapply ceq_trans; [apply LB |]. unfold stj. rewrite firstn_nil. apply ceq_refl, init_inv.
     - assert (E : firstn (length hist - k) (skipn k hist) = skipn k hist).
       { apply firstn_all2. rewrite skipn_length. lia. }
       rewrite E. eapply ceq_trans; [apply run_cong; exact LB |].
@@ -361,13 +372,14 @@ Section Restart.
   Theorem restart_reproduces :
     forall (hist : list entry) (k : nat) (leftover hdr : list N),
       k <= length hist -> Forall entry_ok hist ->
+      node_ok (run (firstn k hist) init) ->
       codec_ok hdr (build_snapshot (run (firstn k hist) init)) ->
       exists nd, restart write_truncate leftover hdr hist k = Ok nd /\
                  forall c, ceq c (nd c) (run hist init c).
   Proof.
-    intros hist k leftover hdr Hk OK [Hh [Hl Hc]]. unfold Replay.restart.
+    intros hist k leftover hdr Hk OK NK [Hh [Hl Hc]]. unfold Replay.restart.
     destruct k as [| k'].
-    - eexists; split; [reflexivity |]. intros c. rewrite restart_state_no_snapshot. apply ceq_refl.
+    - eexists; split; [reflexivity |]. intros c. rewrite restart_state_no_snapshot. now apply run_refl.
     - set (k := Datatypes.S k') in *. unfold start_up_files, snapshot_file.
       rewrite snap_roundtrip_over_leftover.
       + cbn [res_map snd]. eexists; split; [reflexivity |]. intros c.
